@@ -3,10 +3,11 @@
 (* Trace validation of recorded runs of the real CNF / WCNF / GCNF parsers *)
 (* against the grammar machine of module Dimacs: every public call must    *)
 (* return exactly the item / end / error (kind, line and column) the       *)
-(* machine computes from the input bytes, and when the source hands out    *)
-(* one byte per read the parser must have pulled exactly the bytes the     *)
-(* machine's token functions inspect (`need`).  Runs of other parsers in   *)
-(* the same file are skipped.                                              *)
+(* machine computes from the input bytes (errors: on the machine's line    *)
+(* and token), and when the source hands out one byte per read the parser  *)
+(* must not have pulled anything beyond the line that holds the last byte  *)
+(* the machine's token functions inspect (`need`).  Runs of other parsers  *)
+(* in the same file are skipped.                                           *)
 (***************************************************************************)
 EXTENDS Dimacs, Json, IOUtils, TLC
 
@@ -39,12 +40,34 @@ TSrc ==
   /\ delivered' = delivered + R.n
   /\ UNCHANGED <<dvars, active, exact, done>>
 
+\* The machine transcribes where the present implementation raises each error.  The properties ask for less (C08: the
+\* line of the offending token and a column ON that token; C01: the same location for every chunking, which the
+\* cross-run contract checks), so a reported location matches when it is on the machine's line and on the token
+\* (maximal run of non-blank bytes) that contains the machine's position; a position on a blank or at the end of the
+\* input only matches itself.
+RECURSIVE LineStartAbs(_, _, _)
+LineStartAbs(line, k, p) == IF k >= line \/ p >= Limit THEN p ELSE LineStartAbs(line, IF vis[p + 1] = 10 THEN k + 1 ELSE k, p + 1)
+IsBlankAt(p) == At(vis, p) \in {32, 9, 13, 10, None}
+RECURSIVE TokStart(_)
+TokStart(p) == IF p > 0 /\ ~IsBlankAt(p - 1) THEN TokStart(p - 1) ELSE p
+RECURSIVE TokEndAt(_)
+TokEndAt(p) == IF IsBlankAt(p) THEN p ELSE TokEndAt(p + 1)
+OnErrToken(line, col, gotCol) ==
+  LET ls == LineStartAbs(line, 1, 0)
+      p == ls + col - 1
+      q == ls + gotCol - 1
+  IN  IF IsBlankAt(p) THEN q = p ELSE q >= TokStart(p) /\ q < TokEndAt(p) /\ TokStart(p) >= ls
 ErrMatches(e) ==
   IF e[1] = "io" THEN R.res = "err" /\ R.kind = "io"
-  ELSE R.res = "err" /\ R.kind = "syntax" /\ R.linen = e[2] /\ R.coln = e[3]
+  ELSE R.res = "err" /\ R.kind = "syntax" /\ R.linen = e[2] /\ (R.coln = e[3] \/ OnErrToken(e[2], e[3], R.coln))
 
-\* with one byte per read the parser has pulled exactly what the machine says it needs
-Economy(S) == exact => delivered = (IF Need(S) > Limit THEN Limit ELSE Need(S))
+\* Reading economy at the granularity the properties speak about (C09: an item is handed out without waiting for bytes
+\* beyond the line that completes it): with one byte per read, nothing past the end of the line holding the last byte
+\* the machine's token functions inspect has been pulled.  (Byte-exact economy of the text helpers is C16's business and
+\* is checked on the helpers themselves.)
+RECURSIVE LineEndAfter(_)
+LineEndAfter(j) == IF j >= Limit THEN Limit ELSE IF vis[j + 1] = 10 THEN j + 1 ELSE LineEndAfter(j + 1)
+Economy(S) == exact => delivered <= LineEndAfter(IF Need(S) > 0 THEN Need(S) - 1 ELSE 0)
 
 TRetNew ==
   /\ active /\ ~done /\ IsEv("pret") /\ R.fn = "new"
